@@ -52,17 +52,23 @@ class PyModel:
     def seq_ref(self, v):
         return z3.If(L.is_List(v), Val.lref(v), Val.tref(v))
 
+    def seq_ref_b(self, ex, v):
+        """reference of a list/tuple value as a plain term (decides the tag on this path)"""
+        if ex.branch(L.is_List(v), 'seq-is-list'):
+            return L.simp(Val.lref(v))
+        return L.simp(Val.tref(v))
+
     def seq_len(self, ex, v):
         v = ex.to_val(v)
         if ex.branch(z3.Or(L.is_List(v), L.is_Tuple(v)), 'seq'):
-            n = ex.heap.llen(L.simp(self.seq_ref(v)))
+            n = ex.heap.llen(self.seq_ref_b(ex, v))
             ex.assume(n >= 0)
             return n
         raise Unsupported('*pack of a non-sequence')
 
     def seq_get(self, ex, v, i):
         v = ex.to_val(v)
-        r = L.simp(self.seq_ref(v))
+        r = self.seq_ref_b(ex, v)
         x = ex.known(ex.heap.lelt(r, i))
         ty = self.engine.shapes.elem_ty(ex, r)
         if ty is not None:
@@ -75,12 +81,12 @@ class PyModel:
         v = ex.to_val(v)
         if ex.branch(L.is_Tuple(v), 'pack-is-tuple'):
             return v
-        r = L.simp(self.seq_ref(v))
+        r = self.seq_ref_b(ex, v)
         return L.TupleV(ex.new_list(ex.heap.llen(r), ex.heap.lelts(r), 'tuple'))
 
     def seq_tail_tuple(self, ex, rest, seq, idx):
         seq = ex.to_val(seq)
-        r = L.simp(self.seq_ref(seq))
+        r = self.seq_ref_b(ex, seq)
         n = ex.heap.llen(r)
         k = len(rest)
         j = z3.Int('j!tail')
@@ -97,7 +103,7 @@ class PyModel:
             return list(v)
         v = ex.to_val(v)
         if ex.branch(z3.Or(L.is_Tuple(v), L.is_List(v)), 'unpack-seq'):
-            r = L.simp(self.seq_ref(v))
+            r = self.seq_ref_b(ex, v)
             if not ex.branch(ex.heap.llen(r) == n, 'unpack-len'):
                 ex.raise_('ValueError', 'unpack')
             out = []
@@ -160,7 +166,7 @@ class PyModel:
     def iter_snapshot(self, ex, v):
         """(length, elements array) of iterating v once now (list/tuple/str/dict/opaque iterator)"""
         if ex.branch(z3.Or(L.is_List(v), L.is_Tuple(v)), 'snap-seq'):
-            r = L.simp(self.seq_ref(v))
+            r = self.seq_ref_b(ex, v)
             n = ex.heap.llen(r)
             ex.assume(n >= 0)
             ex.event('iter_read', r)
@@ -253,7 +259,7 @@ class PyModel:
                 raise Unsupported('subscript on object of unknown class')
             return self.engine.calls.call_method(ex, obj, '__getitem__', [key], {})
         if ex.branch(z3.Or(L.is_List(obj), L.is_Tuple(obj)), 'getitem-seq'):
-            r = L.simp(self.seq_ref(obj))
+            r = self.seq_ref_b(ex, obj)
             n = ex.heap.llen(r)
             ex.assume(n >= 0)
             if ex.branch(self.index_like(key), 'getitem-int'):
@@ -320,13 +326,13 @@ class PyModel:
         if ex.branch(z3.And(self.index_like(st), self.num_value_int(st) == 0), 'slice-step-0'):
             ex.raise_('ValueError', 'slice step cannot be zero')
 
-    def dict_store(self, ex, r, key, val, internal=False):
+    def dict_store(self, ex, r, key, val, internal=False, kind='store'):
         h = ex.heap
         had = h.dhas(r, key)
         n = h.dlen(r)
         new_len = z3.If(had, n, n + 1)
         new_keys = z3.If(had, h.arr('DKEY')[r], z3.Store(h.arr('DKEY')[r], n, key))
-        ex.dict_write('store', r, L.simp(new_len), z3.Store(h.arr('DHAS')[r], key, z3.BoolVal(True)),
+        ex.dict_write(kind, r, L.simp(new_len), z3.Store(h.arr('DHAS')[r], key, z3.BoolVal(True)),
                       z3.Store(h.arr('DVAL')[r], key, val), new_keys, stored=(key, val))
 
     def setitem(self, ex, obj, key, val):
@@ -414,6 +420,11 @@ class PyModel:
     # ------------------------------------------------------------------ operators
     def unary_neg(self, ex, v):
         v = ex.to_val(v)
+        r = self._unary_neg(ex, v)
+        ex.event('prim', 'neg', v, r)
+        return r
+
+    def _unary_neg(self, ex, v):
         if ex.branch(z3.Or(L.is_Int(v), L.is_Bool(v)), 'neg-int'):
             r = L.IntV(-self.num_value_int(v))
             ex.assume(L.int_digits(-self.num_value_int(v)) == L.int_digits(self.num_value_int(v)))
@@ -440,7 +451,11 @@ class PyModel:
         a = ex.to_val(a)
         b = ex.to_val(b)
         op = self.ARITH[opname]
-        ex.event('binop', op, a, b, inplace)
+        r = self._binop(ex, op, a, b, inplace)
+        ex.event('prim', 'binop', op, a, b, inplace, r)
+        return r
+
+    def _binop(self, ex, op, a, b, inplace):
         both_num = z3.And(L.is_numeric(a), L.is_numeric(b))
         if ex.branch(both_num, 'binop-num'):
             return self.num_binop(ex, op, a, b)
@@ -508,7 +523,7 @@ class PyModel:
             ex.assume(z3.Implies(k == 0, L.slen(Val.s(s)) == 0))
             ex.assume(z3.Implies(k >= 1, L.slen(Val.s(s)) >= L.slen(Val.s(seq))))
             return s
-        r0 = L.simp(self.seq_ref(seq))
+        r0 = self.seq_ref_b(ex, seq)
         n = ex.heap.llen(r0)
         m = ex.fresh_int('replen')
         ex.assume(z3.Implies(k == 0, m == 0))
@@ -617,13 +632,18 @@ class PyModel:
                      uf(a, b))))))
 
     def compare(self, ex, opname, a, b):
+        r = self._compare(ex, opname, a, b)
+        if opname not in ('Is', 'IsNot'):
+            ex.event('prim', 'compare', opname, ex.to_val(a), ex.to_val(b), r)
+        return r
+
+    def _compare(self, ex, opname, a, b):
         if opname in ('Is', 'IsNot'):
             r = self.identical(ex, a, b)
             return L.BoolV(r if opname == 'Is' else z3.Not(r))
         a = ex.to_val(a)
         b = ex.to_val(b)
         if opname in ('Eq', 'NotEq'):
-            ex.event('compare', opname, a, b)
             if ex.branch(z3.Or(L.is_Opaque(a), L.is_Opaque(b), L.is_Obj(a), L.is_Obj(b)), 'eq-opaque'):
                 cls_a = ex.class_of(a) if True else None
                 # dataclass / object equality: no effects for package classes; host objects unknown
@@ -632,7 +652,6 @@ class PyModel:
             r = self.py_eq(ex, a, b)
             return L.BoolV(r if opname == 'Eq' else z3.Not(r))
         if opname in ('Lt', 'LtE', 'Gt', 'GtE'):
-            ex.event('compare', opname, a, b)
             both_num = z3.And(L.is_numeric(a), L.is_numeric(b))
             if ex.branch(both_num, 'cmp-num'):
                 both_int = z3.And(z3.Or(L.is_Int(a), L.is_Bool(a)), z3.Or(L.is_Int(b), L.is_Bool(b)))
@@ -677,7 +696,7 @@ class PyModel:
                 ex.raise_('TypeError', 'unhashable')
             return ex.heap.dhas(L.simp(Val.dref(c)), item)
         if ex.branch(z3.Or(L.is_List(c), L.is_Tuple(c)), 'in-seq'):
-            r = L.simp(self.seq_ref(c))
+            r = self.seq_ref_b(ex, c)
             return L.UF('seq_contains', I, z3.ArraySort(I, Val), Val, B)(ex.heap.llen(r), ex.heap.lelts(r), item)
         if ex.branch(L.is_Str(c), 'in-str'):
             if not ex.branch(L.is_Str(item), 'in-str-str'):
